@@ -41,6 +41,12 @@ CLAIMED.update({
              note='Trusted: translator gen_scadfile.py; std::fs/std::thread/stack size exercised not modelled; emission model from C01.',
              ref='DESIGN.md section 7 C13'),
 })
+CLAIMED.update({
+ 'C06': dict(technique='macro arms regenerated from scad.rs into Coq data; verified checker (linearity + template = denotation of the pattern) run by vm_compute over all 136 arms (reflection); translator validated by rustc-expansion correspondence on ticking arguments',
+             text='coq/Props/C06.v (axiom-free): forallb arm_ok macro_arms = true over the regenerated list of all 136 construction arms of this tree; hence for every arm every argument expression is evaluated exactly once (let bindings + direct uses = 1) and the node built has the variant and every field the documented form denotes (spec Macro/Denote.v: keyword -> parameter, metavariable name -> parameter, d -> r/2, single size -> every axis, OpenSCAD defaults incl. convexity 1), with fields in declaration order of the regenerated ScadOp decl. The checker rejects exactly the 12 arms that were non-linear before the fix. Tie: translator rerun every check; every arm is expanded by rustc on ticking arguments with fresh values and 1..4 children, and node, children order and evaluation counts must equal the regenerated template evaluated in Coq; a+b, a-b and into_scad compared with the expected nodes.',
+             note='Trusted: gen/macro_parse.py + gen_macros.py (validated by the rustc correspondence each run); the denotation table Macro/Denote.v is a hand-written spec; rustc macro expansion/type checking exercised not modelled.',
+             ref='DESIGN.md section 7 C06'),
+})
 NOT_YET = {}
 def main():
     props = [json.loads(l)['id'] for l in open('properties.jsonl')]
@@ -59,7 +65,7 @@ def main():
     m = {'version': 1, 'setup_cmd': 'bin/check --setup',
          'hooks': {'guard': 'scad_tree_verif', 'enable': 'RUSTFLAGS="--cfg scad_tree_verif" (set by harness/.cargo/config.toml and lib/vlib.py)',
                    'baseline_off_cmd': 'cd /repo && cargo test --workspace --no-fail-fast --offline',
-                   'source_commits': ['ab5b33d'], 'add_only': True},
+                   'source_commits': ['ab5b33d', '036cb82'], 'add_only': True},
          'engines': [{'name': 'coq-model', 'path': 'coq/', 'serves_properties': sorted(CLAIMED),
                       'kind_free_text': 'Coq 8.16 development: hand-written Gallina mirror of the Rust (read at R for theorems, at primitive binary64 for the differential run), regenerated fragments under coq/Gen, property theorems in coq/Props; driver bin/check, Rust harness harness/'}],
          'checks': checks, 'not_applicable': na,
